@@ -89,8 +89,21 @@ def forbidden_scan(module):
     return hits
 
 
+def run_translators():
+    """Regenerate lean/PestModel/Gen/*.lean from /repo's working tree (every run)."""
+    msgs = []
+    for tr in sorted(glob.glob(os.path.join(VERIF, "translators", "tr_*.py"))):
+        rc, out = sh(["python3", tr, REPO], cwd=VERIF, timeout=600)
+        msgs.append((os.path.basename(tr), rc, out[-500:]))
+    return msgs
+
+
 def lake_build(targets, timeout=3000):
     t0 = time.time()
+    tr = run_translators()
+    bad = [m for m in tr if m[1] != 0]
+    if bad:
+        return False, "translator failed: " + json.dumps(bad), time.time() - t0
     rc, out = sh(["lake", "build"] + targets, cwd=LEAN, timeout=timeout)
     return rc == 0, out, time.time() - t0
 
